@@ -71,7 +71,7 @@ func executeFlush(db *DB, flushAction memStoreFlushAction) error {
 	}
 
 	if walPath != "" {
-		err = removeWalFilesUpTo(walPath)
+		err = removeWalFilesUpTo(filepath.Join(db.basePath, WriteAheadFolder), walPath)
 		if err != nil {
 			return err
 		}
@@ -102,8 +102,13 @@ func executeFlush(db *DB, flushAction memStoreFlushAction) error {
 // removeWalFilesUpTo removes the given WAL file and every older WAL file next to it. The WAL can rotate on its own when
 // a file reaches its size limit, so a memstore may be backed by more than the one file that the rotation returned;
 // all files up to that one only hold records of memstores that are flushed by now.
-func removeWalFilesUpTo(walPath string) error {
+// Only the WAL folder of the database is swept: a file that lives elsewhere has no older siblings that belong to us.
+func removeWalFilesUpTo(walFolder string, walPath string) error {
 	walDir, lastName := filepath.Split(walPath)
+	if filepath.Clean(walDir) != filepath.Clean(walFolder) {
+		return os.Remove(walPath)
+	}
+
 	entries, err := os.ReadDir(walDir)
 	if err != nil {
 		return err
